@@ -10,7 +10,7 @@
 
 typedef struct { int ntrace; vx_pt trace[VX_MAXCH]; uint64_t state[VX_MAXCH]; int status, cret, sret; ep_t c, s; int sec_equal, diverged; char fail[160]; int cke_len; } exec_out;
 static exec_out *XO; static int ENVX = 1;
-typedef struct { int proto, mutual, depth; app_dir c2s, s2c; int do_app, interleave; unsigned seed; int via_files; } cfg_t;
+typedef struct { int proto, mutual, depth; app_dir c2s, s2c; int do_app, interleave; unsigned seed; int via_files; int trust_extra; } cfg_t;
 static side_creds SRV[3][3], CLI[3][3];   /* [proto][depth-1] */
 
 static uint64_t vn_state_hash(void) { uint64_t a[9] = { (uint64_t)vn_me, vn_bytes_recv[0], vn_bytes_recv[1], vn_bytes_sent[0], vn_bytes_sent[1], vn_to[0].w - vn_to[0].r, vn_to[1].w - vn_to[1].r, vn_stagelen[0], vn_stagelen[1] }; return vh_hash(a, sizeof a, 0x51a7e); }
@@ -18,7 +18,11 @@ static uint64_t vn_state_hash(void) { uint64_t a[9] = { (uint64_t)vn_me, vn_byte
 static int child_run(const cfg_t *cf) {
 	ep_t *c = &XO->c, *s = &XO->s; memset(c, 0, sizeof *c); memset(s, 0, sizeof *s);
 	c->proto = s->proto = cf->proto; c->is_client = 1; c->mutual = s->mutual = cf->mutual; c->own = &CLI[cf->proto][cf->depth - 1]; s->own = &SRV[cf->proto][cf->depth - 1]; c->trust = &SRV[cf->proto][cf->depth - 1]; s->trust = cf->mutual ? &CLI[cf->proto][cf->depth - 1] : NULL;
-	c->out = cf->c2s; s->in = cf->c2s; s->out = cf->s2c; c->in = cf->s2c; c->do_app = s->do_app = cf->do_app; s->interleave = cf->interleave; c->do_close = s->do_close = 1; c->via_files = s->via_files = cf->via_files; c->entropy_key = 0xC11E17 + 7919u * cf->seed; s->entropy_key = 0x5E12BE12 + 104729u * cf->seed; c->entropy_fail_at = s->entropy_fail_at = -1;
+	c->out = cf->c2s; s->in = cf->c2s; s->out = cf->s2c; c->in = cf->s2c; c->do_app = s->do_app = cf->do_app; s->interleave = cf->interleave; if (cf->trust_extra) { /* trust lists with unrelated CA certificates around the genuine root: 1 = [U1, R], 2 = [R, U1], 3 = [U1, R, U2] */ static side_creds TS, TC; const side_creds *src[2] = { c->trust, s->trust }; side_creds *dst[2] = { &TS, &TC };
+		for (int w = 0; w < 2; w++) { if (!src[w]) continue; *dst[w] = *src[w]; uint8_t u1[1024], u2[1024]; size_t l1 = 0, l2 = 0; cert_spec u; spec_ca(&u, "U1", -1); make_cert(&u, &CK[9], &CK[9], "U1", u1, &l1); spec_ca(&u, "U2", -1); make_cert(&u, &CK[10], &CK[10], "U2", u2, &l2); uint8_t *p = dst[w]->cacerts; size_t rl = src[w]->cacertslen;
+			if (cf->trust_extra != 2) { memcpy(p, u1, l1); p += l1; } memcpy(p, src[w]->cacerts, rl); p += rl; if (cf->trust_extra == 2) { memcpy(p, u1, l1); p += l1; } if (cf->trust_extra == 3) { memcpy(p, u2, l2); p += l2; } dst[w]->cacertslen = (size_t)(p - dst[w]->cacerts); }
+		c->trust = &TS; if (s->trust) s->trust = &TC; }
+	c->do_close = s->do_close = 1; c->via_files = s->via_files = cf->via_files; c->entropy_key = 0xC11E17 + 7919u * cf->seed; s->entropy_key = 0x5E12BE12 + 104729u * cf->seed; c->entropy_fail_at = s->entropy_fail_at = -1;
 	vx_explore_env = ENVX; XO->status = vnet_run2(ep_task, c, ep_task, s, &XO->cret, &XO->sret);
 	XO->ntrace = vx_ntrace < VX_MAXCH ? vx_ntrace : VX_MAXCH; memcpy(XO->trace, vx_trace, sizeof(vx_pt) * XO->ntrace); XO->diverged = vx_diverged;
 	XO->cke_len = -1; for (int i = 0; i < vn_nlog; i++) if (vn_log[i].dir == 1 && vn_log[i].hdr[0] == 22 && vn_log[i].len > 9 && vn_log[i].copy[5] == 16) { XO->cke_len = (int)vn_log[i].len - 9; break; } /* body length of the (plaintext) ClientKeyExchange */
@@ -79,6 +83,10 @@ static void body(void) {
 	   tls_ctx_init / tls_ctx_set_cipher_suites / tls_ctx_set_ca_certificates / tls_ctx_set_certificate_and_key / tls_ctx_set_tlcp_server_certificate_and_keys */
 	for (int p = 0; p < 3; p++) { char bn[64]; snprintf(bn, sizeof bn, "context-interface-%s", PNAME[p]); if (!vh_block_begin(bn)) continue;
 		for (int m = 0; m < 2; m++) for (int d = 1; d <= 3; d++) { cfg_t cf = { p, m, d, { { 24 }, 1, 64 }, { { 24 }, 1, 64 }, 1, 0, 0, 1 }; if (!vh_next()) continue; ENVX = 0; run_exec(&cf, NULL, 0); NEXEC++; judge(&cf, NULL, 0, "context-interface"); vh_sample("{\"block\":\"context-interface\",\"proto\":\"%s\",\"mutual\":%d,\"chain_depth\":%d}", PNAME[p], m, d); } }
+	/* F: trust lists with more than one CA certificate (the genuine root in front, in the middle, at the end): both verifiers must find it, and what the server
+	   tells the client about its acceptable authorities must be something the client can read */
+	for (int p = 0; p < 3; p++) { char bn[64]; snprintf(bn, sizeof bn, "trust-lists-%s", PNAME[p]); if (!vh_block_begin(bn)) continue;
+		for (int m = 0; m < 2; m++) for (int te = 1; te <= 3; te++) for (int d = 1; d <= 2; d++) { cfg_t cf = { p, m, d, { { 24 }, 1, 64 }, { { 24 }, 1, 64 }, 1, 0, 0, 0, te }; if (!vh_next()) continue; ENVX = 0; run_exec(&cf, NULL, 0); NEXEC++; char nm[40]; snprintf(nm, sizeof nm, "trust-list-%s", te == 1 ? "U,R" : te == 2 ? "R,U" : "U,R,U"); judge(&cf, NULL, 0, nm); vh_sample("{\"block\":\"trust-lists\",\"proto\":\"%s\",\"mutual\":%d,\"list\":\"%s\",\"chain_depth\":%d}", PNAME[p], m, nm + 11, d); } }
 	/* D: other key material - the honest handshake under further entropy scripts: key-exchange values of unusual shape (an SM2 ciphertext or point whose
 	   coordinate has leading zero octets encodes shorter) appear only for some of them; the shortest and longest ClientKeyExchange seen are counted */
 	for (int p = 0; p < 3; p++) for (int m = 0; m < 2; m++) { char bn[64]; snprintf(bn, sizeof bn, "keys-%s-%s", PNAME[p], m ? "mutual" : "serverauth"); if (!vh_block_begin(bn)) continue; int N = p == 0 ? (vh_thorough ? 16384 : 4096) : (vh_thorough ? 1024 : 256), shortc = 0;
